@@ -367,23 +367,45 @@ func (c *streamCtx) histShapes(prop string) []func(v int) *histSpec {
 		h.Fleet = true
 		return h
 	}
+	// the node size changes between scans (nodes replaced by another instance type) and the group later scales up from zero:
+	// the cache must hold the size seen in the LAST non-empty scan
+	shapes["node-size-change"] = func(v int) *histSpec {
+		sizes := [][2]string{{"8", "32Gi"}, {"2", "8Gi"}, {"3900m", "15.5Gi"}}[v%3]
+		init := c.histWorld(2, 0, func(b *gbuild) { b.o.MinNodes = 0; b.o.ScaleUpCoolDownPeriod = "3m" })
+		repl := append(nodeEdit(base, "g1", "g1-big0", 300, true, withAlloc(sizes[0], sizes[1])), nodeEdit(base, "g1", "g1-big1", 290, true, withAlloc(sizes[0], sizes[1]))...)
+		repl = append(repl, hEdit{Op: "del_node", Node: "g1-n0"}, hEdit{Op: "del_node", Node: "g1-n1"},
+			hEdit{Op: "del_instance", ASG: "asg-g1", Inst: &SimInst{ID: "i-g1-n0"}}, hEdit{Op: "del_instance", ASG: "asg-g1", Inst: &SimInst{ID: "i-g1-n1"}})
+		steps := []histStep{step(0, c.off(), "two 4-cpu nodes, idle: taint"),
+			step(60, c.off(), "nodes replaced by another size", repl...),
+			step(60, c.off(), "idle: taint the new ones"),
+			step(400, c.off(), "reap"),
+			step(10, c.off(), "nothing left"),
+			step(10, c.off(), "pods arrive: scale up from zero with the size of the LAST nodes seen", podEdit("g1", "job1", "", 9000, 10*gib), podEdit("g1", "job2", "", 500, 40*gib)),
+			step(30, c.off(), "locked"),
+			step(300, c.off(), "cool-down over, nothing registered yet: again from zero")}
+		if v%2 == 1 {
+			steps[5] = steps[5].restart() // the cache does not survive a restart: exactly one node is requested
+		}
+		return hist(init, "node-size-change", steps...)
+	}
 	order := []string{"taint-wait-reap", "repeated-scale-down", "cooldown", "pods-move", "restart", "dry", "from-zero", "transient-failure",
 		"constructed-earlier", "lister-lag", "cordon-annotate", "external-taints", "two-groups"}
 	byProp := map[string][]string{
-		"C01": {"taint-wait-reap", "pods-move", "restart", "external-taints", "lister-lag", "cordon-annotate"},
-		"C02": {"cooldown", "restart", "from-zero", "dry", "two-groups", "transient-failure"},
-		"C03": {"constructed-earlier", "repeated-scale-down", "taint-wait-reap", "constructed-earlier", "cordon-annotate"},
-		"C04": {"constructed-earlier", "cooldown", "constructed-earlier", "from-zero", "two-groups"},
-		"C06": {"constructed-earlier", "repeated-scale-down", "cooldown", "constructed-earlier", "from-zero"},
-		"C07": {"cooldown", "restart", "dry", "transient-failure"},
-		"C08": {"repeated-scale-down", "taint-wait-reap", "cordon-annotate"},
-		"C09": {"cordon-annotate", "pods-move", "taint-wait-reap"},
-		"C10": {"cordon-annotate", "taint-wait-reap", "pods-move"},
-		"C11": {"dry", "from-zero"},
-		"C12": {"two-groups", "transient-failure"},
-		"C15": {"repeated-scale-down", "external-taints", "restart", "cooldown"},
-		"C19": {"lister-lag", "transient-failure", "taint-wait-reap", "two-groups"},
-		"C20": {"transient-failure", "lister-lag", "external-taints", "constructed-earlier", "from-zero"},
+		"C01":  {"taint-wait-reap", "pods-move", "restart", "external-taints", "lister-lag", "cordon-annotate"},
+		"C02":  {"cooldown", "restart", "from-zero", "dry", "two-groups", "transient-failure"},
+		"C03":  {"constructed-earlier", "repeated-scale-down", "taint-wait-reap", "constructed-earlier", "cordon-annotate"},
+		"C04":  {"constructed-earlier", "cooldown", "constructed-earlier", "from-zero", "two-groups"},
+		"C06":  {"constructed-earlier", "repeated-scale-down", "cooldown", "constructed-earlier", "from-zero"},
+		"C07":  {"cooldown", "restart", "dry", "transient-failure"},
+		"C08":  {"repeated-scale-down", "taint-wait-reap", "cordon-annotate"},
+		"C09":  {"cordon-annotate", "pods-move", "taint-wait-reap"},
+		"C10":  {"cordon-annotate", "taint-wait-reap", "pods-move"},
+		"C11":  {"dry", "from-zero"},
+		"C12":  {"two-groups", "transient-failure"},
+		"C15":  {"repeated-scale-down", "external-taints", "restart", "cooldown"},
+		"C19":  {"lister-lag", "transient-failure", "taint-wait-reap", "two-groups"},
+		"C05S": {"node-size-change", "from-zero", "node-size-change", "restart", "cooldown"},
+		"C20":  {"transient-failure", "lister-lag", "external-taints", "constructed-earlier", "from-zero"},
 	}
 	names := order
 	if l, ok := byProp[prop]; ok {
